@@ -76,12 +76,18 @@ def g_cfg(use, world, with_classes):
 
 
 def descriptors_in(v, out=None):
+    """the descriptors the translator can reach: constructor arguments are handed over verbatim (never translated), and a
+    descriptor that is rejected (invalid name, malformed) is rejected before any of its other members is looked at"""
     out = [] if out is None else out
     if isinstance(v, dict):
         if D.JC in v:
             out.append(v)
-        for x in v.values():
-            descriptors_in(x, out)
+            jc = v[D.JC]
+            if not well_formed(jc) or name_is_invalid(jc[0]) or not isinstance(jc[0], str):
+                return out
+        for k, x in v.items():
+            if k != D.JC:
+                descriptors_in(x, out)
     elif isinstance(v, (list, tuple)):
         for x in v:
             descriptors_in(x, out)
@@ -338,6 +344,13 @@ def gen_payload_cases(tier, rng, n_quick, n_thorough):
             singles.append({D.JC: D._fresh(jc)})
         singles.append({D.JC: [other[1], []]})
         singles.append({D.JC: ["", []]})
+        # a rejected descriptor holding a perfectly valid one (constructor arguments, list or map form, other members):
+        # nothing of it may be imported or constructed
+        inner = {D.JC: [victim[1], []]}
+        for bad in ["", "bad name", victim[1] + "\n", "é"]:
+            singles.append({D.JC: [bad, [D._fresh(inner)]]})
+            singles.append({D.JC: [bad, {"a": [1, D._fresh(inner)]}]})
+            singles.append({D.JC: [bad, [[{"k": D._fresh(inner)}]]], "attr": D._fresh(inner)})
         for d in singles:
             for env in ({"jsonrpc": "2.0", "method": "m", "params": [D._fresh(d)], "id": 1},
                         {"jsonrpc": "2.0", "method": "m", "params": {"a": [1, {"b": D._fresh(d)}]}, "id": 1},
@@ -345,13 +358,23 @@ def gen_payload_cases(tier, rng, n_quick, n_thorough):
                         {"jsonrpc": "2.0", "method": "m", "params": [{D.JC: [other[1], []]}, D._fresh(d)], "id": 1}):
                 for use in (True, False):
                     cases.append({"use": use, "classes": False, "payload": env, "victim": vi, "version": 2.0})
+                cases.append({"use": True, "classes": False, "payload": env, "victim": vi, "version": 2.0, "esc": True})
     for i in range(n_quick if tier == "quick" else n_thorough):
         vi = rng.randint(0, 1)
         victim, other = canaries[vi], canaries[1 - vi]
         env = rand_envelope(rng, victim[1], other[1])
         cases.append({"use": rng.random() < 0.75, "classes": rng.random() < 0.3, "payload": env, "victim": vi,
-                      "version": rng.choice([2.0, 2.0, 1.0])})
+                      "version": rng.choice([2.0, 2.0, 1.0]), "esc": rng.random() < 0.25})
     return cases
+
+
+def wire_text(case):
+    """the JSON text of the payload; with "esc" the member name is written with \\u escapes (the same JSON value)"""
+    text = json.dumps(case["payload"])
+    if case.get("esc"):
+        text = text.replace('"__jsonclass__"', '"\\u005f_jsonclass_\\u005f"')
+        assert json.loads(text) == json.loads(json.dumps(case["payload"]))
+    return text
 
 
 def victim_of(case):
@@ -377,7 +400,7 @@ class Payload(Base):
     def run_impl(self, case):
         self.ensure()
         cfg = self.config(case["use"], case["classes"], case["version"])
-        text = json.dumps(case["payload"])
+        text = wire_text(case)
         out, imports, constructs = self.watch.observe(lambda: self.J.loads(text, cfg))
         if out[0] == "ok":
             out = ("ok", self.world.abstract(out[1]))
@@ -447,7 +470,7 @@ class Client(Payload):
     def run_impl(self, case):
         self.ensure()
         cfg = self.config(case["use"], case["classes"], case["version"])
-        text = json.dumps(case["payload"])
+        text = wire_text(case)
         tr = _CannedTransport(text)
         proxy = self.J.ServerProxy("http://localhost:1/rpc", transport=tr, config=cfg, version=case["version"])
         out, imports, constructs = self.watch.observe(lambda: proxy._run_request('{"jsonrpc": "2.0", "method": "m", "id": 1}'))
@@ -485,7 +508,7 @@ class Server(Base):
             calls.append((a, k))
             return 7
         disp.register_function(m, "m")
-        text = json.dumps(case["payload"])
+        text = wire_text(case)
         # the oracle's own test of "the translator rejects this payload" (not observed for imports)
         try:
             self.J.loads(text, self.config(case["use"], case["classes"], case["version"]))
@@ -513,6 +536,14 @@ class Server(Base):
                 return ("C08:rejected-payload-not-32700", "translator rejects the payload but _marshaled_dispatch raised %s" % type(obs["outcome"][1]).__name__)
             return None      # an accepted payload whose reply cannot be serialised is C02's subject
         reply = obs["outcome"][1]
+        if case["use"]:
+            # decided from the statement, not by asking the translator: a reachable descriptor with an empty / invalid class name
+            payload = json.loads(json.dumps(case["payload"]))
+            bad = [d[D.JC][0] for d in descriptors_in(payload) if isinstance(d[D.JC], list) and d[D.JC] and name_is_invalid(d[D.JC][0])]
+            if bad and not self.is_32700(reply):
+                return ("C08:rejected-payload-not-32700", "descriptor with class name %r, but the reply is %r" % (bad[0], reply))
+            if bad and obs["calls"]:
+                return ("C08:method-invoked-for-rejected-payload", "%d invocation(s) though a descriptor has class name %r" % (obs["calls"], bad[0]))
         if obs["rejected"]:
             if not self.is_32700(reply):
                 return ("C08:rejected-payload-not-32700", "translator rejects the payload but the reply is %r" % (reply,))
